@@ -186,9 +186,10 @@ def run(tier):
             #  the open-list representation behind KF-C01-1)
             if 'tolist' in res and c['label'] == 'leftrec' and not same(res['tolist'], res['none']):
                 bad('an action that returns its (list) argument as a plain list is distinguishable from no semantics', 'tolist', res['none'])
-            if 'tag/compiled-twice' in res and c['backend'] == 'model' and not same(res['tag/compiled-twice'], res['tag']):
-                bad('compile(g, semantics=S1) ; compile(g, semantics=S2) ; the first model no longer runs the actions of S1',
-                    'tag/compiled-twice', res['tag'])
+            if c['backend'] == 'model' and 'ref' in res.get('tag/compiled-twice', {}) and \
+                    not same(res['tag/compiled-twice'], res['tag/compiled-twice']['ref']):
+                bad('compile(g, semantics=S1) ; compile(g, semantics=S2) with S2 another object of the same class ; the first model no '
+                    'longer runs the actions of S1', 'tag/compiled-twice', res['tag/compiled-twice']['ref'])
             # the object's own truth value, hashability and equality play no part
             for kind in OBJECT_SHAPES:
                 if kind in res and not (kind.endswith('/api') and c['backend'] != 'model') and not same(res[kind], res['tag']):
